@@ -236,6 +236,48 @@ def k5_schedules(run, rng, ncases, norders):
     run.sample({"schedule_case": case, "variants": [str(k) for k in results]})
 
 
+def threaded_large(run, rng, n):
+    """many groups (block intermediates large enough for NumPy to release the GIL), many blocks, a deep tree: several threaded
+    computes (8 workers) must equal the synchronous compute and the per-group NumPy result"""
+    import dask
+    import dask.array as da
+    import numpy as np
+
+    import flox
+
+    for _ in range(n):
+        ng = rng.choice([1500, 3000, 4000])
+        nb = rng.choice([24, 48])
+        per = ng                                  # every block holds every group once, in a rotated order
+        labels = np.concatenate([np.roll(np.arange(ng), rng.randrange(ng)) for _ in range(nb)])
+        vals = np.arange(labels.size, dtype=float) % 97 - 40
+        func = rng.choice(["sum", "nanmax", "mean", "count"])
+        k = rng.choice([2, 3, 4])
+        method = rng.choice(["map-reduce", "cohorts"])
+        arr = da.from_array(vals, chunks=per)
+        with warnings.catch_warnings(), dask.config.set(split_every=k):
+            warnings.simplefilter("ignore")
+            r, _ = flox.groupby_reduce(arr, labels, func=func, method=method, expected_groups=np.arange(ng), engine="numpy")
+            ref = np.asarray(r.compute(scheduler="sync"))
+            want = {"sum": lambda: np.bincount(labels, weights=vals, minlength=ng), "count": lambda: np.bincount(labels, minlength=ng).astype(float),
+                    "mean": lambda: np.bincount(labels, weights=vals, minlength=ng) / np.bincount(labels, minlength=ng),
+                    "nanmax": lambda: np.array([vals[g::ng].max() for g in range(0)] or [0])}[func]() if func != "nanmax" else None
+            bad = None
+            if want is not None and not np.allclose(ref, want):
+                bad = "the synchronous result differs from the per-group NumPy result"
+            for rep in range(3):
+                got = np.asarray(r.compute(scheduler="threads", num_workers=8))
+                if not np.array_equal(got, ref, equal_nan=True):
+                    bad = f"threaded compute #{rep + 1} (8 workers) differs from the synchronous compute in {int((got != ref).sum())} of {ng} groups"
+                    break
+        run.count(f"thrlarge|{ng}|{nb}|{func}|{k}|{method}", True)
+        if bad:
+            run.violation({"property": "C03", "kind": "scheduler dependence: " + bad, "ngroups": ng, "nblocks": nb, "func": func, "split_every": k, "method": method,
+                           "how_to_run": "labels = concatenate of nblocks rotations of arange(ngroups); vals = arange(size) % 97 - 40; chunks = ngroups; "
+                                         "groupby_reduce(dask, labels, expected_groups=arange(ngroups), engine='numpy').compute(scheduler='threads', num_workers=8) vs scheduler='sync'"},
+                          tag="thr")
+
+
 def k5_scans(run, rng, ncases, norders):
     """grouped scans: sync / threaded / random topological orders (with re-execution) vs the eager scan"""
     import dask.array as da
@@ -281,6 +323,7 @@ def run(run: C.Run):
     flox_tree_cases(run, rng, 80 if thorough else 40, 600 if thorough else 120)
     k5_schedules(run, rng, 300 if thorough else 50, 6 if thorough else 2)
     k5_scans(run, rng, 300 if thorough else 60, 6 if thorough else 3)
+    threaded_large(run, rng, 12 if thorough else 3)
     # deep / wide trees with ties: every split_every must give the eager answer (not sent to the Coq model)
     big = []
     for c in G.tie_heavy_cases(rng, 80 if thorough else 14):
